@@ -724,6 +724,7 @@ class RTCSctpTransport(AsyncIOEventEmitter):
         self._t2_failures = 0
         self._t2_handle: Optional[asyncio.TimerHandle] = None
         self._t3_handle: Optional[asyncio.TimerHandle] = None
+        self._reconfig_handle: Optional[asyncio.TimerHandle] = None
 
         # data channels
         self._data_channel_id: Optional[int] = None
@@ -1344,14 +1345,17 @@ class RTCSctpTransport(AsyncIOEventEmitter):
         self.__log_debug("<< %s", param)
 
         if isinstance(param, StreamResetOutgoingParam):
-            # mark closed inbound streams
-            for stream_id in param.streams:
-                self._inbound_streams.pop(stream_id, None)
+            # a retransmitted request is only answered again, the streams
+            # were reset when it was first received
+            if param.request_sequence != self._reconfig_response_seq:
+                # mark closed inbound streams
+                for stream_id in param.streams:
+                    self._inbound_streams.pop(stream_id, None)
 
-                # close data channel
-                channel = self._data_channels.get(stream_id)
-                if channel:
-                    self._data_channel_close(channel)
+                    # close data channel
+                    channel = self._data_channels.get(stream_id)
+                    if channel:
+                        self._data_channel_close(channel)
 
             # send response
             response_param = StreamResetResponseParam(
@@ -1382,6 +1386,7 @@ class RTCSctpTransport(AsyncIOEventEmitter):
                     self._data_channel_closed(stream_id)
 
                 self._reconfig_request = None
+                self._reconfig_timer_cancel()
                 await self._transmit_reconfig()
 
     async def _send(
@@ -1517,6 +1522,7 @@ class RTCSctpTransport(AsyncIOEventEmitter):
             self._t1_cancel()
             self._t2_cancel()
             self._t3_cancel()
+            self._reconfig_timer_cancel()
             self.__state = "closed"
 
             # close data channels
@@ -1585,6 +1591,25 @@ class RTCSctpTransport(AsyncIOEventEmitter):
         self._t2_failures = 0
         self.__log_debug("- T2(%s) start", chunk_type(self._t2_chunk))
         self._t2_handle = self._loop.call_later(self._rto, self._t2_expired)
+
+    def _reconfig_timer_cancel(self) -> None:
+        if self._reconfig_handle is not None:
+            self._reconfig_handle.cancel()
+            self._reconfig_handle = None
+
+    def _reconfig_timer_expired(self) -> None:
+        self._reconfig_handle = None
+        if self._reconfig_request is not None:
+            # the request or its response was lost: send the request again
+            self.__log_debug("x RE-CONFIG timer expired")
+            asyncio.ensure_future(self._send_reconfig_param(self._reconfig_request))
+            self._reconfig_timer_start()
+
+    def _reconfig_timer_start(self) -> None:
+        self._reconfig_timer_cancel()
+        self._reconfig_handle = self._loop.call_later(
+            self._rto, self._reconfig_timer_expired
+        )
 
     def _t3_expired(self) -> None:
         self._t3_handle = None
@@ -1705,6 +1730,7 @@ class RTCSctpTransport(AsyncIOEventEmitter):
             self._reconfig_request_seq = tsn_plus_one(self._reconfig_request_seq)
 
             await self._send_reconfig_param(param)
+            self._reconfig_timer_start()
 
     def _update_advanced_peer_ack_point(self) -> None:
         """
